@@ -22,7 +22,7 @@ RULE = (
 )
 TIERS = {"quick": {"shards": 8, "n": 700, "budget_s": 200}, "thorough": {"shards": 16, "n": 6000, "budget_s": 2700}}
 FLOOR = {"quick": 200, "thorough": 10000}
-REQUIRED_LABELS = {"quick": ["pair:attr->attr", "pair:arg->arg", "pair:arg->kwarg", "pair:attr->arg", "wrap", "eval", "target-not-first", "target-after-self"], "thorough": []}
+REQUIRED_LABELS = {"quick": ["multi-pair:same-function", "pair:attr->attr", "pair:arg->arg", "pair:arg->kwarg", "pair:attr->arg", "wrap", "eval", "target-not-first", "target-after-self"], "thorough": []}
 ASSUMPTIONS = [
     "the new name never collides with another parameter of the target function (a collision would be the generator's duplicate, not cdd's)",
     "paths cdd cannot resolve raise; the oracle for a raise is 'output and input files byte-identical'",
@@ -250,8 +250,92 @@ def layer_main(ctx):
     ctx.run_given("pairs", strategy(ctx), oracle, ctx.cfg["n"])
 
 
-LAYERS = [("pairs", layer_main)]
+# ---- metamorphic layer: ONE call with two (input, output) pairs == two consecutive single-pair calls
+@st.composite
+def multi_strategy(draw):
+    ev = draw(st.integers(0, 3)) == 0
+    isrc, ipaths = draw(mod(with_const=ev))
+    osrc, opaths = draw(mod())
+    ins = [p for p in ipaths if p[1] == ("const" if ev else p[1]) and (ev or p[1] != "const")]
+    if ev:
+        ins = [ipaths[0], ipaths[0]]
+    pairs = []
+    used_targets, new_names = set(), {}
+    for _ in range(2):
+        op = draw(st.sampled_from(opaths))
+        if op[0] in used_targets:
+            continue
+        scope = op[0].rsplit(".", 1)[0]
+        cands = [p for p in ins if (ev or not (op[1] == "attr" and p[1] != "attr")) and (ev or p[2][0] == op[2][0] or (p[2][0] not in op[3]["names"] and p[2][0] not in new_names.get(scope, ()))) and p[2][0] not in ("self", "cls")]
+        if not cands:
+            continue
+        ip = draw(st.sampled_from(cands))
+        pairs.append([ip, op])
+        used_targets.add(op[0])
+        if not ev:
+            new_names.setdefault(scope, set()).add(ip[2][0])
+    return {"isrc": isrc, "osrc": osrc, "pairs": pairs, "eval": ev, "wrap": None if ev else draw(st.sampled_from([None, None, "Optional[{output_param}]"])), "multi": True}
+
+
+def _run(case, d, pairs_list, tag):
+    i, o = os.path.join(d, "i_%s.py" % tag), os.path.join(d, "o_%s.py" % tag)
+    open(i, "w").write(case["isrc"])
+    open(o, "w").write(case["osrc"])
+    for pairs in pairs_list:
+        try:
+            with core.quiet():
+                cdd.compound.sync_properties.sync_properties(input_eval=case["eval"], input_filename=i, input_params=[p[0][0] for p in pairs], output_filename=o, output_params=[p[1][0] for p in pairs], output_param_wrap=case["wrap"])
+        except BaseException as e:
+            if isinstance(e, (core.CaseTimeout, KeyboardInterrupt)):
+                raise
+            return e, open(o).read()
+    return None, open(o).read()
+
+
+def oracle_multi(case):
+    r = Result()
+    r.label("multi-pair", "pairs=%d" % len(case["pairs"]))
+    if case["eval"]:
+        r.label("eval")
+    if len(case["pairs"]) < 2:
+        return r
+    same_fn = case["pairs"][0][1][0].rsplit(".", 1)[0] == case["pairs"][1][1][0].rsplit(".", 1)[0]
+    if same_fn:
+        r.label("multi-pair:same-function")
+    d = tempfile.mkdtemp(prefix="c13m_", dir="/dev/shm" if os.path.isdir("/dev/shm") else None)
+    try:
+        e_seq, out_seq = _run(case, d, [[case["pairs"][0]], [case["pairs"][1]]], "seq")
+        if e_seq is not None:
+            r.label("rejected")
+            r.exc.append("sequential %s" % core.exc_bucket(e_seq))
+            return r
+        e_one, out_one = _run(case, d, [case["pairs"]], "one")
+        if e_one is not None:
+            r.fail("multi-pair-raises", "each pair succeeds on its own (%s then %s) but the single call with both raises %s" % (case["pairs"][0][1][0], case["pairs"][1][1][0], core.exc_bucket(e_one)))
+            if out_one != case["osrc"]:
+                r.fail("raise-not-atomic", "... and the output file changed")
+            return r
+        try:
+            a, b = ast.dump(ast.parse(out_seq)), ast.dump(ast.parse(out_one))
+        except SyntaxError as e:
+            r.fail("output-not-python", str(e))
+            return r
+        if a != b and case["wrap"] and case["pairs"][0][0][0] == case["pairs"][1][0][0] and core.is_open("P59"):
+            r.covered("P59")  # the wrap rewrites the INPUT node in place: its second use is wrapped twice
+        elif a != b:
+            r.fail("multi-pair-differs", "one call with both pairs gives another file than two consecutive calls: %s" % _diff(a, b))
+        r.nontrivial = True
+    finally:
+        shutil.rmtree(d, ignore_errors=True)
+    return r
+
+
+def layer_multi(ctx):
+    ctx.run_given("multi-pair", multi_strategy(), oracle_multi, max(20, ctx.cfg["n"] // 3))
+
+
+LAYERS = [("pairs", layer_main), ("multi-pair", layer_multi)]
 
 
 def replay(case):
-    return oracle(case)
+    return oracle_multi(case) if case.get("multi") else oracle(case)
